@@ -634,6 +634,11 @@ func e2eMutateLine(out []byte, at int, newType, newPayload string) []byte {
 	}
 	var nb bytes.Buffer
 	nb.Write(out[:at])
+	if newType == "\x00RAW" { // the whole line (head included) is replaced: damage at the framing level
+		nb.WriteString(newPayload)
+		nb.Write(out[end:])
+		return nb.Bytes()
+	}
 	if newType != "" {
 		nb.WriteString("#" + newType + ":")
 	} else {
